@@ -82,20 +82,23 @@ CHECKS['C07'] = {
   'text': 'Coq round-trip theorems for all in-range values (prefix lengths fully symbolic) for IPv6 unicast (reach/unreach, next hops with and without '
           'link-local), route distinguishers, label stacks, VPNv4/VPNv6, IPv4/IPv6 labeled unicast, each under its exact guard with a kernel-checked '
           'refuted witness per guard; flowspec operator lists proved; the flowspec rule length prefix proved for every body length 1..4095 in both forms '
-          '(C07_flowspec_length_prefix_*); EVPN types 1-4 covered by the round-trip oracle on the implementation. Models tied by correspondence (5.4k cases '
+          '(C07_flowspec_length_prefix_*); EVPN route types 1-4 with ESI types 0-5 and MAC text proved for all values (model/YEvpn.v, C07_evpn_*). Models tied by correspondence (6.7k cases '
           'quick, incl. exact encoded sizes around every length-form switch: rule body 240, attribute 255/256, 65535/65536) with zero mismatches.',
   'note': 'guards = known findings (IPv6 values < 2^32 render as IPv4, label 0 without bottom-of-stack, deeper label stacks in VPN, trailing double ::/0, '
-          'labeled-unicast unreach paths, flowspec /0 and tcp-flags) listed in known_findings.json; EVPN has no Coq model; netaddr text<->integer conversions trusted',
+          'labeled-unicast unreach paths, flowspec /0 and tcp-flags, EVPN IPv6 address below 2^32) listed in known_findings.json; netaddr text<->integer conversions trusted',
   'technique': 'Coq proof (round-trip theorems per family, refutation witnesses) + model/implementation correspondence via vm_compute + round-trip oracle',
 }
 CHECKS['C08'] = {
-  'text': 'An independent structural walker written in Coq from the RFCs (spec/Walker.v, shares no code with yabgp) with proved sanity lemmas (header, section '
-          'sums, prefix octets, attribute framing, flag table) and validity theorems for NOTIFICATION, KEEPALIVE, ROUTE-REFRESH, IPv4 prefix lists and the '
-          'single standard attributes against the Coq models of the constructors; every other constructor (OPEN, whole UPDATEs, MP families, tunnel encaps, '
-          'SR-TE, PMSI, flowspec v4/v6, EVPN) is decided by evaluating the Coq walker on the implementation output over exhaustive/boundary input spaces.',
-  'note': 'theorems cover the modelled constructors only; the rest is the walker run as an oracle (test, not proof); 5 known findings (C08-oversize, '
-          'C08-flowspec-and-dropped, C08-flowspec6-offset, C08-label0-no-bos, C08-srte-ipv6-endpoint)',
-  'technique': 'Coq-specified structural walker (proved sanity + validity theorems for modelled constructors) evaluated by vm_compute on real constructor output',
+  'text': 'An independent structural walker written in Coq from the RFCs (spec/Walker.v, shares no code with yabgp) with proved sanity lemmas and rejected near-miss '
+          'examples, and validity theorems for ALL inputs of the constructor models: NOTIFICATION, KEEPALIVE, ROUTE-REFRESH, IPv4 prefix lists, twelve standard '
+          'attributes, OPEN with every capability configuration (C08_open_valid), the whole UPDATE assembly (valid iff <= 4096 octets: C08_update_assembly, '
+          'C08_update_of_blocks; Update.construct never checks the limit: C08_update_refuted, known finding), MP_REACH/MP_UNREACH for IPv6 unicast, VPNv4/6, '
+          'labeled unicast and IPv4 flow specification (C08_mp_*), communities from API text. The construct-only families (EVPN, SR-TE, IPv6 flowspec, tunnel '
+          'encapsulation, PMSI, add-path UPDATEs) are decided by evaluating the Coq walker on the implementation output over exhaustive/boundary/free-text input spaces.',
+  'note': 'theorems cover the modelled constructors (tied to the code by the correspondence runs of C06/C07/C14/C17 and re-run witnesses here); the rest is the '
+          'walker run as an oracle (test, not proof); 5 known findings (C08-oversize, C08-flowspec-and-dropped, C08-flowspec6-offset, C08-label0-no-bos, '
+          'C08-srte-ipv6-endpoint); model is of the code with fixes 2751f81, 4aa533e, e38c734, 4becf3b, 480662d',
+  'technique': 'Coq proof (validity theorems of constructor models against a Coq-specified structural walker) + walker evaluated by vm_compute on real constructor output + model/implementation correspondence',
 }
 CHECKS['C11'] = {
   'text': 'Every while loop (41) and recursive call site (3) of yabgp/message/** - list regenerated from the source by harness/inventory.py and proved equal to '
